@@ -168,15 +168,16 @@ pub fn obl_sign_value(s: &mut Src, ctx: &mut Ctx) {
 /// C03 (native search / replay only; the proof is Verus'): modes_checksum against the bit-serial
 /// polynomial division.  Input: length byte n, then n message bytes.
 pub fn obl_crc_native(s: &mut Src, ctx: &mut Ctx) {
-    let n = (s.u8() as usize) % 33;
-    let mut m = [0u8; 32];
-    s.fill(&mut m[..n]);
-    let r = crc::modes_checksum(&m[..n], n * 8);
+    let n = (s.u8() as usize) % 29;
+    let extra = (s.u8() as usize) % 5; // bytes after the n bytes the checksum is asked for
+    let mut m = [0u8; 33];
+    s.fill(&mut m[..n + extra]);
+    let r = crc::modes_checksum(&m[..n + extra], n * 8);
     if n < 3 {
         vcheck!(ctx, r.is_err(), "[C03] checksum of fewer than 3 bytes is refused");
     } else {
         let sp = syndrome(&m[..n], n);
-        vnote!(ctx, "message {:02x?}: modes_checksum = {:x?}, syndrome spec = {:06x}", &m[..n], r, sp);
+        vnote!(ctx, "message {:02x?} (+{} trailing bytes): modes_checksum = {:x?}, syndrome spec = {:06x}", &m[..n], extra, r, sp);
         vcheck!(ctx, matches!(r, Ok(v) if v == sp), "[C03] modes_checksum == remainder modulo 0x1FFF409 xor last 24 bits");
     }
 }
